@@ -71,7 +71,7 @@ def lattice_exports(chk, rng, n_pure, n_purif, nvmax, seed, budget=280):
             pts[i] = q
     pf = lattice.PointsFile(pts)
     try:
-        r1 = tlc.run("RBM", constants={"TMax": 1800, "Lanes": 16}, defs={"Archs": "{}", "Vals": "{1}"},
+        r1 = tlc.run("RBM", constants={"TMax": 640, "Lanes": 16}, defs={"Archs": "{}", "Vals": "{1}"},
                      invariants=["WellDefined", "Marginal", "Partition", "Export"],
                      env={"POINTS_FILE": pf.path}, workers=WORKERS, heap=HEAP, timeout=1500, seed=seed)
     finally:
@@ -82,7 +82,7 @@ def lattice_exports(chk, rng, n_pure, n_purif, nvmax, seed, budget=280):
             qts[i] = lattice.random_purif_point(rng, nvmax=nvmax, nhmax=3, namax=3, budget=budget)
     pf = lattice.PointsFile(qts)
     try:
-        r2 = tlc.run("PurifRBM", constants={"TMax": 1800, "Lanes": 16}, defs={"Archs": "{}", "Vals": "{1}"},
+        r2 = tlc.run("PurifRBM", constants={"TMax": 640, "Lanes": 16}, defs={"Archs": "{}", "Vals": "{1}"},
                      invariants=["WellDefined", "Marginal", "PartialTrace", "Hermitian", "Diagonal", "TraceIsZ", "Export"],
                      env={"POINTS_FILE": pf.path}, workers=WORKERS, heap=HEAP, timeout=1500, seed=seed)
     finally:
@@ -121,7 +121,9 @@ class ExactState:
     def ratio(self, kp, k):
         """(numerator(s', s) / denominator(s), absolute tolerance for the code's float64 value)"""
         if kp == k:
-            return mpmath.mpc(1), mpmath.mpf(4e-15)
+            # pure: psi(s)/psi(s) through one code path; mixed: rho(s, s) and probability(s) are computed by
+            # different code paths (closed-form pi vs. effective energy), each within `rel` of the exact value
+            return mpmath.mpc(1), mpmath.mpf(4e-15) if self.pure else mpmath.mpf(2 * self.rel)
         if self.pure:
             r = self.psi[kp] / self.psi[k]
             return r, 3 * self.rel * abs(r) + mpmath.mpf(10) ** -300
